@@ -18,7 +18,20 @@ func prefixConfirmed(role string) []mc.Event {
 	return []mc.Event{rpcInit[0], d("B"), d("A"), d("B"), d("A"), d("B"), d("A"), {Name: "block", Arg: "conf"}}
 }
 
+// prefixAnnounced is the honest run up to the maker having broadcast and
+// announced the opening transaction (the announcement is still in flight).
+func prefixAnnounced(role string) []mc.Event {
+	d := func(w string) mc.Event { return mc.Event{Name: "deliver", Arg: w} }
+	if role == "in_sender" {
+		// rpc(A) -> request to B -> agreement to A -> A broadcasts and announces
+		return []mc.Event{rpcInit[0], d("B"), d("A")}
+	}
+	// out_receiver: rpc(B) -> request to A -> agreement (fee invoice) to B -> B pays, A broadcasts and announces
+	return []mc.Event{rpcInit[0], d("A"), d("B")}
+}
+
 type famOpt struct {
+	announced bool
 	confirmed bool
 	chains    []string
 	roles     []string // out_sender, in_receiver, in_sender, out_receiver
@@ -60,6 +73,10 @@ func mkFamilies(o famOpt) []Family {
 				if o.confirmed {
 					f.Name += "/from-confirmed"
 					f.Initial = prefixConfirmed(r)
+				}
+				if o.announced {
+					f.Name += "/from-announced"
+					f.Initial = prefixAnnounced(r)
 				}
 				if o.tweak != nil {
 					o.tweak(&f)
@@ -140,6 +157,76 @@ func init() {
 	})
 }
 
+func init() {
+	register(&PropSpec{
+		ID: "C07", Level: "model_checking",
+		Rule: "explicit-state BFS by replay of both maker roles on both chains with peer silence (drop), cancel / bad coop_close / invalid message injection, service faults after the wallet broadcast, wallet output orderings, restarts and a crash at every effect operation; invariant on the durable record in every state plus a deterministic drain to CSV maturity",
+		Families: func(tier string) []Family {
+			var out []Family
+			for _, idx := range []int{0, 1} {
+				idx := idx
+				early := mkFamilies(famOpt{chains: bothChain, roles: makers, backends: []bool{false},
+					flags:  scn.Flags{Blocks: true, Time: true, Restart: true, Drop: true, MaxTime: 2, MaxBlocks: 2, NoWinJump: true, NoCsvJump: true},
+					bounds: pick(tier, mc.Bounds{MaxDepth: 5, MaxDev: 2, Budget: 90 * time.Second}, mc.Bounds{MaxDepth: 7, MaxDev: 3, Budget: 12 * time.Minute}),
+					tweak: func(f *Family) {
+						f.Name += fmt.Sprintf("/swapout@%d", idx)
+						f.Cfg.AWallet.SwapOutIndex, f.Cfg.AWallet.ExtraOuts = idx, 1
+						ch := f.Cfg.Chain
+						f.Cfg.Flags.Faults = []string{ch + ".getblockcount", ch + ".createopening.after", ch + ".setlabel"}
+					}})
+				out = append(out, early...)
+			}
+			late := mkFamilies(famOpt{announced: true, chains: bothChain, roles: makers, backends: []bool{false},
+				flags:  scn.Flags{Blocks: true, Time: true, Restart: true, Drop: true, Inject: true, MaxTime: 3, MaxBlocks: 3, NoWinJump: true},
+				bounds: pick(tier, mc.Bounds{MaxDepth: 5, MaxDev: 2, Budget: 90 * time.Second}, mc.Bounds{MaxDepth: 7, MaxDev: 3, Budget: 12 * time.Minute}),
+				tweak: func(f *Family) {
+					f.Cfg.AWallet.SwapOutIndex, f.Cfg.AWallet.ExtraOuts = 1, 1
+					f.Cfg.Flags.Faults = []string{f.Cfg.Chain + ".spend"}
+				}})
+			return append(out, late...)
+		},
+		Oracles:      []scn.Oracle{oracleC07},
+		NeedOutcomes: []string{"State_ClaimedCsv", "State_ClaimedCoop", "State_ClaimedPreimage"},
+	})
+	register(&PropSpec{
+		ID: "C16", Level: "model_checking",
+		Rule: "every state reached by the explicit-state BFS (all four roles, both chains; deliver / drop / blocks / time / payment outcomes / restart / crash at every effect op) is a start state; from each the peer goes silent and a deterministic fair continuation (time, blocks to CSV maturity, two restarts, healthy services) must end in a terminal state with the channel released",
+		Families: func(tier string) []Family {
+			return mkFamilies(famOpt{chains: bothChain, roles: allRoles, backends: []bool{false},
+				flags:  scn.Flags{Blocks: true, Time: true, Restart: true, Drop: true, PayPlan: true, MaxTime: 2, MaxBlocks: 2, NoWinJump: true, NoCsvJump: true},
+				bounds: pick(tier, mc.Bounds{MaxDepth: 6, MaxDev: 1, Budget: 100 * time.Second}, mc.Bounds{MaxDepth: 8, MaxDev: 2, Budget: 14 * time.Minute})})
+		},
+		Oracles:      []scn.Oracle{oracleC16},
+		NeedOutcomes: []string{"State_ClaimedPreimage"},
+	})
+	register(&PropSpec{
+		ID: "C17", Level: "model_checking",
+		Rule: "explicit-state BFS over delivery orders of request / agreement / cancel, dropped replies (silent peer), virtual-time steps across the 10 min timeout and restarts at any point before the opening transaction, for both requester roles and the swap-out responder",
+		Families: func(tier string) []Family {
+			return mkFamilies(famOpt{chains: bothChain, roles: []string{"out_sender", "in_sender", "out_receiver"}, backends: []bool{false},
+				flags:  scn.Flags{Time: true, Restart: true, Drop: true, MaxTime: 3, TimeAlways: true},
+				bounds: pick(tier, mc.Bounds{MaxDepth: 6, MaxDev: 3, Budget: 60 * time.Second, NoCrash: true}, mc.Bounds{MaxDepth: 8, MaxDev: 3, Budget: 8 * time.Minute})})
+		},
+		Oracles:      []scn.Oracle{oracleC17},
+		NeedOutcomes: []string{"State_SwapCanceled"},
+	})
+	register(&PropSpec{
+		ID: "C22", Level: "model_checking",
+		Rule: "explicit-state BFS of both maker roles after the announcement: payment, cancel, coop_close good/bad, invalid message, CSV, restart, interleaved with virtual-time steps; the oracle is interval-agnostic (send instants of opening_tx_broadcasted form one arithmetic progression while waiting; at most one already-due copy afterwards)",
+		Families: func(tier string) []Family {
+			return mkFamilies(famOpt{announced: true, chains: bothChain, roles: makers, backends: []bool{false},
+				flags:  scn.Flags{Blocks: true, Time: true, Restart: true, Drop: true, Inject: true, PayPlan: false, MaxTime: 4, MaxBlocks: 2, NoWinJump: true, TimeAlways: true},
+				bounds: pick(tier, mc.Bounds{MaxDepth: 6, MaxDev: 2, Budget: 80 * time.Second, NoCrash: true}, mc.Bounds{MaxDepth: 8, MaxDev: 3, Budget: 10 * time.Minute, NoCrash: true})})
+		},
+		Oracles:      []scn.Oracle{oracleC22},
+		NeedOutcomes: []string{"State_ClaimedPreimage", "State_WaitCsv"},
+	})
+}
+
+func TestC07(t *testing.T) { runProp(t, "C07") }
+func TestC16(t *testing.T) { runProp(t, "C16") }
+func TestC17(t *testing.T) { runProp(t, "C17") }
+func TestC22(t *testing.T) { runProp(t, "C22") }
 func TestC06(t *testing.T) { runProp(t, "C06") }
 func TestC13(t *testing.T) { runProp(t, "C13") }
 func TestC15(t *testing.T) { runProp(t, "C15") }
